@@ -15,7 +15,7 @@ Example addr_path : parse_dbus_addr_str (only (b "/run/user/1000/bus")) (b "unix
 Proof. vm_compute. reflexivity. Qed.
 Example addr_path_missing : parse_dbus_addr_str (fun _ => false) (b "unix:path=/run/user/1000/bus") = Err.
 Proof. vm_compute. reflexivity. Qed.
-Example addr_abstract_after_keys : parse_dbus_addr_str (fun _ => false) (b "unix:guid=1,x=,abstract=/tmp/dbus-XYZ,path=/p")
+Example addr_abstract_after_keys : parse_dbus_addr_str (fun _ => false) (b "unix:guid=1,x=,abstract=/tmp/dbus-XYZ,=v,y=a=b:c")
                     = Ok (Abstract (b "/tmp/dbus-XYZ")).
 Proof. vm_compute. reflexivity. Qed.
 Example addr_errors :
@@ -24,13 +24,20 @@ Example addr_errors :
        b "unix:path"; b " unix:path=/p"; b "unix: path=/p"]
   = [Err; Err; Err; Err; Err; Err; Err; Err; Err; Err].
 Proof. vm_compute. reflexivity. Qed.
-(* behaviour the theorems state exactly: the first socket key wins, nothing after it is inspected,
-   a value may contain '=' and ':', an empty abstract name is accepted *)
-Example addr_lenient :
+(* strings the parser used to accept and the property excludes: a piece without '=' after the socket pair,
+   two socket keys, an empty socket value, a ';' (address list), a trailing comma *)
+Example addr_formerly_lax :
   map (parse_dbus_addr_str (fun _ => true))
-      [b "unix:path=/a,abstract=b"; b "unix:abstract=b,garbage"; b "unix:abstract=a=b:c"; b "unix:abstract=";
-       b "unix:abstract=a;tcp:host=h"]
-  = [Ok (Path (b "/a")); Ok (Abstract (b "b")); Ok (Abstract (b "a=b:c")); Ok (Abstract []); Ok (Abstract (b "a;tcp:host=h"))].
+      [b "unix:abstract=k,garbage"; b "unix:path=sock,garbage"; b "unix:path=/a,abstract=b"; b "unix:abstract=b,path=/a";
+       b "unix:path=/a,path=/a"; b "unix:abstract="; b "unix:path="; b "unix:abstract=a;tcp:host=h"; b "unix:path=/a;unix:path=/a";
+       b "unix:guid=1;2,path=/a"; b "unix:path=/a,"]
+  = [Err; Err; Err; Err; Err; Err; Err; Err; Err; Err; Err].
+Proof. vm_compute. reflexivity. Qed.
+(* still literal: '=' and ':' inside a value, percent signs *)
+Example addr_literal_values :
+  map (parse_dbus_addr_str (only (b "/a%20b")))
+      [b "unix:abstract=a=b:c"; b "unix:path=/a%20b"; b "unix:path=/a b"]
+  = [Ok (Abstract (b "a=b:c")); Ok (Path (b "/a%20b")); Err].
 Proof. vm_compute. reflexivity. Qed.
 (* sun_path has 108 bytes *)
 Example addr_too_long :
@@ -44,15 +51,27 @@ Example session_env : (get_session_bus_path (fun _ => true) None, get_session_bu
                       = (Err, Err, Ok (Path (b "/x"))).
 Proof. vm_compute. reflexivity. Qed.
 
-(* the hypotheses of addr_path_resolves / addr_abstract_resolves are satisfiable *)
+(* the hypotheses of addr_path_resolves / addr_grammar are satisfiable *)
 Example addr_theorem_instance :
-  parse_dbus_addr_str (only (b "/p")) (unix_address ([(b "guid", b "1"); (b "x y", b "")] ++ (PATH, b "/p") :: [(ABSTRACT, b "k")]))
+  parse_dbus_addr_str (only (b "/p")) (unix_address ([(b "guid", b "1"); (b "x y", b "")] ++ (PATH, b "/p") :: [(b "z", b "k")]))
   = target (only (b "/p")) true (b "/p").
 Proof.
   apply addr_path_resolves.
   - repeat constructor; cbv; intuition discriminate.
   - repeat constructor; cbv; intuition discriminate.
-  - cbv; intuition discriminate.
+  - repeat constructor; cbv; intuition discriminate.
+  - discriminate.
+Qed.
+Example addr_grammar_instance : addr_grammar (b "unix:guid=1,abstract=k") false (b "k").
+Proof.
+  exists [(b "guid", b "1"); (ABSTRACT, b "k")]. split; [reflexivity|]. split; [|split; [reflexivity|discriminate]].
+  repeat constructor; cbv; intuition discriminate.
+Qed.
+Example addr_not_grammar : forall is_path v, ~ addr_grammar (b "unix:abstract=k,garbage") is_path v.
+Proof.
+  intros is_path v Hg. apply parse_pre_grammar in Hg.
+  assert (E : parse_pre (b "unix:abstract=k,garbage") = PErr) by (vm_compute; reflexivity).
+  rewrite E in Hg. destruct is_path; discriminate.
 Qed.
 
 (* ---------------------------------------------------------------- uid *)
